@@ -39,6 +39,8 @@ def classify(case, real, model):
     mp = G.model_panic(model)
     rt = G.norm_real(real)
     viol = []
+    if real == "ABORT:skipped":
+        return "not run: too many scenarios aborted before it", [], mp
     if real.startswith("ABORT"):
         if mp == 8:
             viol.append((P.KEY_STALE, "the process aborted: the runtime's assert on the unit-stream write fired inside an extern \"C\" frame (the model predicts the stale-waker write answered DROPPED)"))
@@ -78,7 +80,7 @@ def run(ctx):
     if not ok:
         ctx.tie_broken("tie", "model extraction/driver build failed:\n" + log[-3000:]); return
     corpus = G.read_corpus(PROP)
-    total = 0; mism = []; dist = {}; distinct = set(); samples = []; viols = {}; outcomes = {}
+    total = 0; mism = []; dist = {}; distinct = set(); samples = []; viols = {}; outcomes = {}; reruns = 0
     stats = {"wakes": 0, "wakes_that_wrote": 0, "wakes_coalesced_or_not_sleeping": 0, "unit_read_cancels": 0,
              "wakeup_events_delivered": 0, "wakes_from_body": 0, "wakes_external": 0, "wakes_from_c_abi_callback": 0}
     for feat in FEATS:
@@ -92,12 +94,15 @@ def run(ctx):
         for c, r, m in zip(cases, real, model):
             total += 1
             why, viol, mp = classify(c, r, m)
-            if why or r.startswith("ABORT"):
+            if (why or r.startswith("ABORT")) and reruns < 40:
+                reruns += 1
                 r2 = rtmock.run(exe, [c], timeout=60)[0]
                 why, viol, mp = classify(c, r2, m)
                 if why:
                     mism.append((c, r2, m, why))
                 r = r2
+            elif why:
+                mism.append((c, r, m, why))
             outcomes[mp] = outcomes.get(mp, 0) + 1
             G.tally(dist, c, r)
             nw = len(re.findall(r"\b(?:wflag|xwake|kwake):", r))
